@@ -189,7 +189,7 @@ def run(F, R):
     # ---------------------------------------------------------------- R6 handler panic census
     R.rule("C17-R6", "every panic-capable site of the request handlers is either a by-design assertion on the configured expectations (individually allowlisted) or reported")
     allow = json.load(open(os.path.join(facts.VERIF, "tables", "panic_allowlist.json")))["entries"]
-    idx = {(e["body"], e["site"]): e for e in allow if e.get("crate") == "mock_omaha_server"}
+    idx = {(e["site"], e["what"]): e for e in allow if e.get("crate") == "mock_omaha_server"}
     roots = [b["id"] for b in s.bodies if b["id"].startswith("mock_omaha_server::handle_") or b["id"].startswith("mock_omaha_server::make_etag") or b["name"].endswith("PrivateKeys::find")]
     reach = census.reachable_bodies(W, roots)
     reach = [r for r in reach if r.startswith("mock_omaha_server::")]
@@ -198,7 +198,7 @@ def run(F, R):
         bv = W.bv(bid)
         for st in census.panic_sites(bv):
             n += 1
-            e = idx.get((bv.name, "%s#%d" % (st["desc"], st["ord"])))
+            e = idx.get((st["desc"], census.site_what(W, bv, st)))
             pr = _infallible_json(bv, st)
             if pr:
                 R.holds("C17-R6", st["key"], "proved: " + pr)
@@ -212,7 +212,7 @@ def run(F, R):
         bv = W.bv(bid)
         for st in census.panic_sites(bv):
             if not _infallible_json(bv, st):
-                used.add((bv.name, "%s#%d" % (st["desc"], st["ord"])))
+                used.add((st["desc"], census.site_what(W, bv, st)))
     stale = [k for k in idx if k not in used]
     R.check("C17-R6", "allowlist-not-stale", not stale, "every server allowlist entry names an existing site", "stale allowlist entries: %s" % stale)
 
